@@ -372,7 +372,10 @@ LEFT JOIN dynamic_dep ON dynamic_dep.i = dep.i
 WHERE ({UNAVAILABLE_INPUT_WHERE})
    OR (
        pend_step.deferred AND dynamic_dep.i IS NOT NULL
-       AND input_file.state NOT IN ({FileState.CONFIRMED.value}, {FileState.BUILT.value})
+       AND (
+           input_node.detached
+           OR input_file.state NOT IN ({FileState.CONFIRMED.value}, {FileState.BUILT.value})
+       )
    )
 """
 
